@@ -15,9 +15,11 @@
    PARTIAL in that the parser that runs is ANTLR-generated code: it is tied to the reference parser
    by correspondence on every generated script and layout (dumped tree = generator's tree with the
    printer's spans = reference parser's tree, evaluated in Coq), and its lexer is compared token by
-   token with the reference lexer. Completeness of the reference parser (it accepts every
-   derivable token sequence) is not proved; acceptance of valid scripts is judged (C14). *)
-From NS Require Import Lexer Parser Grammar LexProofs ParserSound LexSorted NestedParse Navigation.
+   token with the reference lexer.
+   (6) the grammar is unambiguous and the reference parser complete: a derivable token sequence has
+       exactly one tree, and that is the tree the reference parser returns (Proofs/ParserComplete.v;
+       `{ remaining ... }` is read by the first alternative, destAllotment, as ANTLR does). *)
+From NS Require Import Lexer Parser Grammar LexProofs ParserSound LexSorted NestedParse Navigation ParserComplete.
 Open Scope Z_scope.
 
 Theorem C15_token_positions_exact : forall l : list Z, tiled [] l (fst (lex_text l)).
@@ -48,7 +50,15 @@ Proof. exact lex_tokens_ordered. Qed.
 Theorem C15_ranges_nested : forall text p, parse_text text = Parsed p -> nested p = true.
 Proof. exact (fun text p H => proj1 (accepted_text_nested text p H)). Qed.
 
+(* (6) one tree per token sequence, and the reference parser returns it *)
+Theorem C15_grammar_unambiguous : forall ts p p', DProgram ts p -> DProgram ts p' -> p = p'.
+Proof. exact grammar_unambiguous. Qed.
+Theorem C15_parser_complete : forall ts p, DProgram ts p -> exists n, parse_tokens ts = Some (p, n).
+Proof. exact parse_tokens_complete. Qed.
+
 Print Assumptions C15_token_positions_exact.
+Print Assumptions C15_grammar_unambiguous.
+Print Assumptions C15_parser_complete.
 Print Assumptions C15_tokens_single_line.
 Print Assumptions C15_tokens_in_order.
 Print Assumptions C15_ranges_nested.
